@@ -49,15 +49,15 @@ Init ==
 
 ----------------------------------------------------------------------------
 (* The application *)
+SetHeaderOK(p) == ~started /\ ~finalized /\ (\A i \in DOMAIN set : set[i] # p)
 SetHeader(p) ==
-    /\ ~started /\ ~finalized
-    /\ \A i \in DOMAIN set : set[i] # p
+    /\ SetHeaderOK(p)
     /\ set' = Append(set, p)
     /\ UNCHANGED <<written, started, finalized, hdr, wire, frame, drained, copied>>
 
+WriteOK(n) == ~finalized /\ (n > 0 => ~frame.closed)   \* nothing is written once the peer has been told that the response is over
 Write(n) ==
-    /\ ~finalized
-    /\ (n > 0 => ~frame.closed)      \* nothing is written once the peer has been told that the response is over
+    /\ WriteOK(n)
     /\ written' = written + n /\ started' = TRUE
     /\ UNCHANGED <<set, finalized, hdr, wire, frame, drained, copied>>
 
